@@ -352,6 +352,27 @@ def search(payload):
                 break
         if len(fails) >= 5:
             break
+    # HISTORY on ONE object: the same predicate asked about inputs that are == but of different types, one after the other, in both orders
+    # (an answer remembered for 1 must not be given for 1.0 or True)
+    seq_ps = [SP.is_set_of_p(SP.is_int_p), SP.is_set_of_p(SP.is_bool_p), SP.is_set_of_p(SP.is_float_p), SP.all_p(SP.is_int_p), SP.any_p(SP.is_bool_p), SP.is_tuple_of_p(SP.is_int_p, SP.is_float_p),
+              SP.is_list_of_p(SP.is_int_p), SP.is_int_p, SP.is_bool_p, SP.is_float_p, SETP.in_p(1, 2), SP.eq_p(1), SP.is_instance_p(int, str)]
+    seq_xs = [{1, 2, 3}, {1.0}, {True, False}, {1}, {0.0}, {0}, (1, 1.0), (1.0, 1), (True, 1.0), [1, 2], [1.0, 2], [True], 1, 1.0, True, 0, 0.0, False, {2.0, 3}]
+    for p in seq_ps:
+        for xs in (seq_xs, seq_xs[::-1]):
+            for i, x in enumerate(xs):
+                r = ref_call(p, x)
+                if r is None:
+                    continue
+                n += 1
+                got = call(p, x)
+                got = (got[0], bool(got[1])) if got[0] == "ok" else ("raise", got[1])
+                if got[0] != r[0] or (got[0] == "ok" and got[1] != r[1]):
+                    fails.append({"p": repr(p), "p_structure": str(_skey(p)), "x": repr(x), "implementation": repr(got), "reference": repr(r),
+                                  "history": f"ONE predicate object, asked about {xs[:i]!r} before (in this order)"})
+                    break
+            else:
+                continue
+            break
     # the exported FACTORIES against the relation each is named after (the reference above is derived from the returned OBJECT,
     # so a factory that returns another object than it should would go unnoticed there)
     import operator as op_
